@@ -325,12 +325,139 @@ theorem c09_rebuilding_not_elected (c : Ctl) (r : Reg) (so : Bool) (el : String)
   unfold electAndSignal; simp [hr]
 
 /-- **C09 (only the leader can start the volume).** -/
-theorem c09_only_leader (c : Ctl) (addr : String) (cok : Bool) (sz : Nat) (swo : Bool) (cl : String)
-    (srw : Bool) (rev : Option Nat) (ck : CkEnv) (hne : addr ≠ full c.maxRev) (h0 : c.replicas.length = 0) :
-    c.stepStart addr cok sz swo cl srw rev ck = (c, .refused) := by
+theorem c09_only_leader (c : Ctl) (e0 : StartEnv) (es : List StartEnv) (ck : CkEnv)
+    (hne : e0.addr ≠ full c.maxRev) (h0 : c.replicas.length = 0) :
+    c.stepStart (e0 :: es) ck = (c, .refused) := by
   unfold stepStart
   have : ¬ (c.replicas.length > 0) := by omega
   simp [this, hne]
+
+/-- **C18 (Start respects the replication factor).** A start request naming more replicas than the
+    replication factor is refused and changes nothing (fix 8cc7cbc). -/
+theorem c18_start_rf (c : Ctl) (es : List StartEnv) (ck : CkEnv) (h : es.length > c.rf) :
+    (c.stepStart es ck).1 = c := by
+  unfold stepStart
+  split
+  · rfl
+  · repeat' split
+    all_goals first | rfl | omega
+
+theorem setMode_replicas (c : Ctl) (a : String) (m : CMode) :
+    (c.setMode a m).replicas = c.replicas.map (fun r => if r.1 = a ∧ r.2 ≠ .err then (r.1, m) else r) := by
+  unfold setMode
+  split
+  · rename_i hh
+    have hh' : (c.replicas.any fun r => r.1 = a) = false := by simpa [hasReplica] using hh
+    rw [List.any_eq_false] at hh'
+    symm
+    have : ∀ r ∈ c.replicas, (fun r : String × CMode => if r.1 = a ∧ r.2 ≠ .err then (r.1, m) else r) r = id r := by
+      intro r hr
+      have := hh' r hr
+      simp at this
+      simp [this]
+    rw [List.map_congr_left this, List.map_id]
+  · show (c.setModeCore a m).replicas = _
+    unfold setModeCore
+    simp only
+    split
+    · split <;> rfl
+    · rfl
+
+/-- no entry for `a` is RW -/
+def NotRW (l : List (String × CMode)) (a : String) : Prop := ∀ r ∈ l, r.1 = a → r.2 ≠ .rw
+
+theorem notRW_setErr_self (c : Ctl) (a : String) : NotRW (c.setMode a .err).replicas a := by
+  intro r hr ha
+  rw [setMode_replicas] at hr
+  obtain ⟨r0, _, e⟩ := List.mem_map.mp hr
+  by_cases c0 : r0.1 = a ∧ r0.2 ≠ .err
+  · rw [if_pos c0] at e; rw [← e]; simp
+  · rw [if_neg c0] at e
+    rw [← e] at ha ⊢
+    have : r0.2 = .err := by
+      by_cases hh : r0.2 = .err
+      · exact hh
+      · exact absurd ⟨ha, hh⟩ c0
+    rw [this]; decide
+
+theorem notRW_setErr_other (c : Ctl) (a b : String) (h : NotRW c.replicas a) : NotRW (c.setMode b .err).replicas a := by
+  intro r hr ha
+  rw [setMode_replicas] at hr
+  obtain ⟨r0, hr0, e⟩ := List.mem_map.mp hr
+  by_cases c0 : r0.1 = b ∧ r0.2 ≠ .err
+  · rw [if_pos c0] at e; rw [← e]; simp
+  · rw [if_neg c0] at e
+    rw [← e] at ha ⊢
+    exact h r0 hr0 ha
+
+theorem notRW_foldl (l : List String) : ∀ (c : Ctl) (a : String), (a ∈ l ∨ NotRW c.replicas a) →
+    NotRW (l.foldl (fun c a => c.setMode a .err) c).replicas a := by
+  induction l with
+  | nil => intro c a h; rcases h with h | h; cases h; exact h
+  | cons b l ih =>
+    intro c a h
+    apply ih
+    rcases h with h | h
+    · rcases List.mem_cons.mp h with rfl | h
+      · right; exact notRW_setErr_self c a
+      · left; exact h
+    · right; exact notRW_setErr_other c a b h
+
+theorem expectedRev_ge (es : List StartEnv) : ∀ (m : Nat) (e : StartEnv), e ∈ es →
+    e.rev.getD 0 ≤ es.foldl (fun m e => max m (e.rev.getD 0)) m := by
+  induction es with
+  | nil => intro m e he; cases he
+  | cons x xs ih =>
+    intro m e he
+    simp only [List.foldl]
+    have mono : ∀ (l : List StartEnv) (m : Nat), m ≤ l.foldl (fun m e => max m (e.rev.getD 0)) m := by
+      intro l
+      induction l with
+      | nil => intro m; exact Nat.le_refl _
+      | cons y ys ih2 => intro m; simp only [List.foldl]; exact Nat.le_trans (Nat.le_max_left _ _) (ih2 _)
+    rcases List.mem_cons.mp he with rfl | he
+    · exact Nat.le_trans (Nat.le_max_right _ _) (mono xs _)
+    · exact ih _ e he
+
+/-- **C09 / C04 (replicas found behind at start-up are fenced).** After a successful `Start` with any
+    number of addresses, whatever each replica answered, every replica whose revision counter is not
+    the highest one reported is not RW — it is in neither the reader nor the writer list (`CInv`:
+    readers = RW backends) — and the highest counter is an upper bound of all of them. -/
+theorem c09_start_fences_stale (c : Ctl) (es : List StartEnv) (ck : CkEnv) (h0 : ¬ c.replicas.length > 0)
+    (hok : (c.stepStart es ck).2 = .ok) :
+    (∀ e ∈ es, e.rev.getD 0 ≤ expectedRev es) ∧
+    ∀ e ∈ es, e.rev.getD 0 ≠ expectedRev es → NotRW (c.stepStart es ck).1.replicas e.addr := by
+  refine ⟨fun e he => expectedRev_ge es 0 e he, ?_⟩
+  intro e he hstale
+  unfold stepStart at hok ⊢
+  split at hok
+  · cases he
+  · rename_i e0 rest
+    rw [if_neg h0] at hok ⊢
+    by_cases h2 : e0.addr ≠ full c.maxRev
+    · rw [if_pos h2] at hok; cases hok
+    · rw [if_neg h2] at hok ⊢
+      by_cases h3 : (e0 :: rest).length > c.rf
+      · rw [if_pos h3] at hok; cases hok
+      · rw [if_neg h3] at hok ⊢
+        split at hok
+        · cases hok
+        · rename_i hl
+          rw [if_neg hl]
+          simp only at hok ⊢
+          split at hok
+          · cases hok
+          · rename_i hr
+            rw [if_neg hr]
+            have e1 : ∀ x : Ctl, x.startFront.replicas = x.replicas := by
+              intro x; unfold startFront; split <;> rfl
+            show NotRW (Ctl.startFront _).replicas e.addr
+            rw [e1, (updateCheckpoint_same _ ck).2.1]
+            show NotRW (Ctl.replicas (List.foldl _ _ _)) e.addr
+            apply notRW_foldl
+            left
+            unfold staleAddrs
+            exact List.mem_map.mpr ⟨e, List.mem_filter.mpr ⟨he, by simpa using hstale⟩, rfl⟩
 
 /-! ## C13 — snapshots on all replicas, checkpoint agreed -/
 
@@ -532,7 +659,7 @@ theorem c18_overlapping_adds (rf : Nat) (h : 1 ≤ rf) (ops : List CtlOp) :
 example :
     let ops : List CtlOp :=
       [.register ⟨"a", "ua", 5, false⟩ true true "a", .register ⟨"b", "ub", 3, false⟩ true true "a",
-       .start "tcp://a:9502" true 1048576 true "NA" true (some 5) CkEnv.none,
+       .start [⟨"tcp://a:9502", true, 1048576, true, "NA", true, some 5⟩] CkEnv.none,
        .add "tcp://b:9502" none true [] true true CkEnv.none,
        .verify "tcp://b:9502" (some ["h1", "s1"]) (some ["h0", "s1"]) (some "") (some 5) true true CkEnv.none,
        .addPre "tcp://c:9502" none, .addPre "tcp://d:9502" none,
@@ -545,7 +672,7 @@ example :
     register / start / add / verify / add, then a write that fails on one RW replica. -/
 def demo : List CtlOp :=
   [.register ⟨"a", "ua", 5, false⟩ true true "a", .register ⟨"b", "ub", 3, false⟩ true true "a",
-   .start "tcp://a:9502" true 1048576 true "NA" true (some 5) CkEnv.none,
+   .start [⟨"tcp://a:9502", true, 1048576, true, "NA", true, some 5⟩] CkEnv.none,
    .add "tcp://b:9502" none true [] true true CkEnv.none,
    .verify "tcp://b:9502" (some ["h1", "s1"]) (some ["h0", "s1"]) (some "") (some 5) true true CkEnv.none,
    .add "tcp://c:9502" none true [] true true CkEnv.none]
@@ -556,5 +683,22 @@ example : ((Ctl.init 3).run demo).readOnly = false := by decide
 example : (((Ctl.init 3).run demo).stepFanOut "WriteAt" ["tcp://b:9502"]).2 = .ok ∧
     (((Ctl.init 3).run demo).stepFanOut "WriteAt" ["tcp://b:9502"]).1.replicas =
       [("tcp://a:9502", .rw), ("tcp://c:9502", .wo)] := by decide
+
+/-- a start naming three replicas of which the elected one is behind (the situation of seed C04b): the
+    two replicas below the highest counter are fenced, the volume is read-only with one RW of RF 3 -/
+example :
+    let ops : List CtlOp :=
+      [.register ⟨"a", "ua", 7, false⟩ true true "a", .register ⟨"c", "uc", 7, false⟩ true true "a"]
+    let st := ((Ctl.init 3).run ops).step (.start [⟨"tcp://a:9502", true, 1048576, true, "NA", true, some 7⟩,
+        ⟨"tcp://b:9502", true, 1048576, true, "NA", true, some 9⟩, ⟨"tcp://c:9502", true, 1048576, true, "NA", true, some 7⟩] CkEnv.none)
+    st.2 = .ok ∧ st.1.replicas = [("tcp://a:9502", .err), ("tcp://b:9502", .rw), ("tcp://c:9502", .err)] ∧
+    st.1.readers = [("tcp://b:9502", 1)] ∧ st.1.readOnly = true := by decide
+
+/-- four addresses with RF 3 are refused -/
+example :
+    let ops : List CtlOp :=
+      [.register ⟨"a", "ua", 7, false⟩ true true "a", .register ⟨"c", "uc", 7, false⟩ true true "a"]
+    let e := fun (a : String) => (⟨a, true, 1048576, true, "NA", true, some 7⟩ : StartEnv)
+    (((Ctl.init 3).run ops).step (.start [e "tcp://a:9502", e "tcp://b:9502", e "tcp://c:9502", e "tcp://d:9502"] CkEnv.none)).2 = .refused := by decide
 
 end Jiva.Properties
